@@ -177,6 +177,8 @@ pub fn scenarios(tier: Tier) -> Vec<Scenario> {
     add("tight-thunk", 1, vec![Act::new(100).eff(0, EFF_THUNK_DISPATCH), Act::new(101), Act::new(102)], vec![], false, false, 2);
     add("two-effects", 2, vec![Act::new(100).eff(0, EFF_TASK).eff(1, EFF_THUNK), Act::new(101).eff(1, EFF_FUNCTION)], vec![], false, false, 2);
     add("removed", 2, vec![Act::new(100).eff(0, EFF_TASK).eff(1, EFF_THUNK), Act::new(101).eff(0, EFF_TASK)], vec![], true, false, 2);
+    // a panicking effect must not take the other effects of the same action down with it
+    add("panic-sibling", 2, vec![Act::new(100).eff(0, EFF_PANIC_TASK).eff(1, EFF_FUNCTION), Act::new(101).eff(0, EFF_PANIC_TASK).eff(1, EFF_ACTION)], vec![], false, false, 2);
     add("panic", 1, vec![Act::new(100).eff(0, EFF_PANIC_TASK), Act::new(101).eff(0, EFF_TASK)], vec![], false, false, 2);
     add("gated", 1, vec![Act::new(100).eff(0, EFF_GATED_TASK), Act::new(101), Act::new(102).eff(0, EFF_TASK)], vec![], false, true, 2);
     add("client", 1, vec![Act::new(100)], vec![Op::ClientThunk(500), Op::ClientTask(501)], false, false, 2);
